@@ -43,6 +43,7 @@ def run(ctx):
     c01_mempool.run(ctx, rule="C19.3")
     c19_4(ctx)
     c19_4_framing(ctx)
+    c19_5(ctx)
     # the lineage / puzzle-hash gates compare against hashes recomputed by curry_and_treehash from the values actually curried
     # into the puzzle (mod hash, launcher id and launcher puzzle hash of the decoded singleton struct): shared with C17.4
     from . import c17
@@ -293,3 +294,60 @@ def c19_4_framing(ctx):
         for k, (bi, _) in enumerate(ups):
             U.loop_no_skip(ctx, R, b, "frame:every-atom#%d" % k, [bi], "every argument atom (including the empty atom) contributes its frame",
                            header_pred=lambda f: f.endswith("Allocator::next"))
+
+
+def c19_5(ctx):
+    """(a) 'anything that is not a genuine singleton spend is refused' relies on the typed parse of the puzzle reveal as
+    CurriedProgram<_, SingletonArgs>: fast_forward_singleton never re-hashes the reveal against the curry shape, so the
+    derive-generated SingletonArgs::from_clvm must accept only the exact curry form -- in particular the argument-list
+    terminator is the one-byte atom 0x01, tested on the atom's bytes (length 1, then byte equality), not as a decoded
+    integer (0x0001 is a different program with a different tree hash).
+    (b) a spend's dedup fingerprint is compute_puzzle_fingerprint of the conditions *that spend* emitted (the result of
+    running its puzzle with its solution): the stored value is that call's result directly -- no per-puzzle memo."""
+    R = "C19.5"
+    fb = ctx.fb
+    f = fb.fns.get("<chia_puzzle_types::puzzles::singleton::SingletonArgs<I> as clvm_traits::from_clvm::FromClvm<D>>::from_clvm")
+    if f is None:
+        ctx.missing(R, "curry-terminator", "SingletonArgs::from_clvm not found")
+    else:
+        b = Body(f, fb)
+        ctx.touched(b.path)
+        conds = set()
+        for node in b.edge_info:
+            if b.edge_info[node][0] in b.reach:
+                t, l = b.edge_condition(node)
+                s_ = str(apnf.N(t))
+                if "decode_atom" in s_:
+                    conds.add((s_.split("<chia_puzzle_types")[0], l[0]))
+        A = "('decode_atom', 'decoder', 'var:node')"
+        exp = {(A, "try"), ("('Ne', ('len', %s), 1)" % A, "bool"), ("('ne', %s, '" % A, "bool")}
+        ok = conds == exp
+        # the promoted constant compared against is the single byte 0x01
+        lit = [c.get("value") for p_, c in fb.consts.items() if "SingletonArgs" in p_ and "promoted" in p_]
+        ctx.ob(R, "curry-terminator", ok,
+               "SingletonArgs::from_clvm tests the curried-argument terminator by length 1 and byte equality on the decoded atom (no integer decoding)",
+               found=sorted(conds ^ exp)[:3] or None, where=f.sp)
+        names = [U.flat(n).split("::")[-1] for bi, n, t in b.calls()]
+        ctx.ob(R, "curry-terminator:no-int-decode", "decode_number" not in names and "from_clvm" not in [x for x in names if x == "decode_number"],
+               "no decode_number call in the generated parser of the singleton arguments", found=[x for x in names if "decode" in x])
+    g = _run_spendbundle(fb)
+    if g is None:
+        return ctx.missing(R, "fingerprint-per-spend", "run_spendbundle not found")
+    b = Body(g, fb)
+    vals = []
+    for bi, blk in enumerate(b.blocks):
+        if bi not in b.reach:
+            continue
+        for st in blk["s"]:
+            if st["k"] == "assign" and st["pl"].get("p") and isinstance(st["pl"]["p"][-1], dict) and st["pl"]["p"][-1].get("n") == "fingerprint":
+                vals.append(str(apnf.N(b.rvalue_term(st["rv"]))))
+    ok = len(vals) == 1 and vals[0].startswith("('compute_puzzle_fingerprint', ('.1', ('run_program', ") and ".puzzle_reveal" in vals[0] and ".solution" in vals[0]
+    hm = [U.flat(n) for bi, n, t in b.calls() if "HashMap" in U.flat(n) or "BTreeMap" in U.flat(n)]
+    ctx.ob(R, "fingerprint-per-spend", ok and not hm,
+           "the fingerprint stored for a spend is compute_puzzle_fingerprint(conditions returned by running that spend's puzzle with its solution)",
+           found=[v[:160] for v in vals] + hm[:2], where=g.sp)
+
+
+def _run_spendbundle(fb):
+    fs = [f for p, f in fb.fns.items() if p.startswith(CC + "spendbundle_conditions::run_spendbundle") and f.e["kind"] == "Fn"]
+    return fs[0] if len(fs) == 1 else None
